@@ -1448,6 +1448,17 @@ Proof.
   rewrite V in V'. inversion V'.
 Qed.
 
+(* a claim, update or support output is never reported as an internal transfer (change), whoever
+   funded and whoever receives it *)
+Theorem internal_not_locked : forall decodable scripts i s toks mi mo,
+  nth_error scripts i = Some s -> tokenize s = TokOk toks -> locked_shape toks ->
+  internal_at decodable scripts i mi mo = false.
+Proof.
+  intros decodable scripts i s toks mi mo Hn T L. unfold internal_at. rewrite Hn.
+  destruct (locked_class s toks T L) as [E|[E|[E|E]]]; rewrite E; cbn;
+    rewrite andb_false_r; reflexivity.
+Qed.
+
 Lemma ex_view :
   tx_view (fun _ => true)
     [bs [181; 1; 97; 1; 98; 109; 117; 118; 169; 1; 99; 136; 172]; bs [106; 2; 80; 1]; bs [118; 169; 1; 99; 136; 172]]
